@@ -188,6 +188,13 @@ impl Property for C07 {
                                     for v in [0u8, 1, 0x3F, 0x40, 0x80, 0xC0, 0xFF] {
                                         all.push(Mut::BlockHeaderSizeByte { b, val: v });
                                     }
+                                    for v in [0u64, 2, 3, 200] {
+                                        all.push(Mut::PropsSize { b, val: v });
+                                    }
+                                    // chains of several LZMA2 filters (lzma-rs decodes them one after the other)
+                                    all.push(Mut::ExtraFilter { b, id: 0x21, props: vec![0] });
+                                    all.push(Mut::ExtraFilter { b, id: 0x21, props: vec![40] });
+                                    all.push(Mut::ExtraFilter { b, id: 0x21, props: vec![] });
                                 }
                                 for v in [u64::MAX >> 1, 1 << 62, 1 << 40, 1 << 32] {
                                     all.push(Mut::IndexCount(v));
@@ -319,6 +326,30 @@ impl Property for C07 {
                 v.push(Case { entry: Entry::RawLzma2 { again: true }, input: enc.bytes.clone(), kind: "lzma2".into(), known_output: None });
                 let xz = super::c02::xz_wrap(&enc.bytes, &enc.output, 1);
                 v.push(Case { entry: Entry::Xz, input: xz, kind: "xz".into(), known_output: None });
+            }
+        }
+        // LZMA2 inside LZMA2 (two chained LZMA2 filters): lzma-rs decodes such chains
+        {
+            use crate::refmodel::lzma2::{write_lzma2, Chunk};
+            use crate::refmodel::xz::{write_xz, Mut, XzBlock, XzSpec};
+            let content: Vec<u8> = (0..50_000u32).map(|i| (i.wrapping_mul(2654435761) >> 20) as u8).collect();
+            let inner = write_lzma2(
+                &content.chunks(7000).enumerate().map(|(i, d)| Chunk::Raw { reset_dict: i == 0, data: d.to_vec() }).collect::<Vec<_>>(),
+                false,
+            )
+            .unwrap();
+            let outer = write_lzma2(
+                &inner.bytes.chunks(9999).enumerate().map(|(i, d)| Chunk::Raw { reset_dict: i == 0, data: d.to_vec() }).collect::<Vec<_>>(),
+                false,
+            )
+            .unwrap();
+            for (hp, hu) in [(false, false), (true, true)] {
+                let spec = XzSpec {
+                    check: 4,
+                    blocks: vec![XzBlock { has_packed: hp, has_unpacked: hu, extra_pad4: 0, dict_prop: 20, payload: outer.bytes.clone(), content: content.clone() }],
+                };
+                let f = write_xz(&spec, Some(&Mut::ExtraFilter { b: 0, id: 0x21, props: vec![20] }));
+                v.push(Case { entry: Entry::Xz, input: f.bytes, kind: "xz".into(), known_output: None });
             }
         }
         v
